@@ -169,13 +169,13 @@ theorem parse_in (T : Tables) (hT : C02.TablesOK T = true) (i : TxIn) (h : WFIn 
   rw [takeN_append 32 i.txid.reverse _ (by simp [h32])]
   simp only [bind, Except.bind]
   rw [takeN_append 4 (leBytes 4 i.index.toNat) _ (by simp)]
-  simp only [bind, Except.bind]
+  simp only []
   rw [parseCS_compactSize _ (by omega)]
-  simp only [bind, Except.bind]
+  simp only []
   rw [takeN_append _ (inScriptRaw T i) _ rfl]
-  simp only [bind, Except.bind]
+  simp only []
   rw [takeN_append 4 i.sequence _ h4]
-  simp only [bind, Except.bind, pure, Except.pure, List.reverse_reverse,
+  simp only [pure, Except.pure, List.reverse_reverse,
     natCast_toNat_ofLE_leBytes4 i.index h0 h1, parsedIn]
 
 theorem parse_out (T : Tables) (hT : C02.TablesOK T = true) (o : TxOut) (h : WFOut T o = true) (seg : Bool)
@@ -187,9 +187,9 @@ theorem parse_out (T : Tables) (hT : C02.TablesOK T = true) (o : TxOut) (h : WFO
   rw [takeN_append 8 (leBytes 8 o.amount.toNat) _ (by simp)]
   simp only [bind, Except.bind]
   rw [parseCS_compactSize _ (by omega)]
-  simp only [bind, Except.bind]
+  simp only []
   rw [takeN_append _ (outScriptRaw T o) _ rfl]
-  simp only [bind, Except.bind, pure, Except.pure, natCast_toNat_ofLE_leBytes8 o.amount h0 h1, parsedOut]
+  simp only [pure, Except.pure, natCast_toNat_ofLE_leBytes8 o.amount h0 h1, parsedOut]
 
 theorem toBytes_parsedIn (T : Tables) (hT : C02.TablesOK T = true) (i : TxIn) (h : WFIn T i = true) (seg : Bool) :
     TxIn.toBytes T (parsedIn T seg i) = .ok (encIn (rawIn T i)) := by
@@ -215,6 +215,64 @@ theorem toBytes_parsedOut (T : Tables) (hT : C02.TablesOK T = true) (o : TxOut) 
   simp only [parsedOut]
   rw [pack_q o.amount h0 h1]
   simp [hr, this, encOut, rawOut, withLen, bind, Except.bind, pure, Except.pure]
+
+theorem wfTx_elim (T : Tables) (t : Tx) (h : WFTx T t = true) :
+    t.version.length = 4 ∧ t.locktime.length = 4 ∧ 1 ≤ t.inputs.length ∧ t.inputs.length < 2 ^ 32 ∧
+    t.outputs.length < 2 ^ 32 ∧ (∀ i ∈ t.inputs, WFIn T i = true) ∧ (∀ o ∈ t.outputs, WFOut T o = true) ∧
+    (t.hasSegwit = true → t.witnesses.length = t.inputs.length ∧
+      ∀ st ∈ t.witnesses, st.length < 2 ^ 32 ∧ ∀ it ∈ st, it.length < 2 ^ 32) := by
+  unfold WFTx at h
+  simp only [Bool.and_eq_true, decide_eq_true_eq, List.all_eq_true] at h
+  obtain ⟨⟨⟨⟨⟨⟨⟨a, b⟩, c⟩, d⟩, e⟩, f⟩, g⟩, w⟩ := h
+  refine ⟨a, b, c, d, e, f, g, ?_⟩
+  intro hs
+  simp only [hs, if_true, Bool.and_eq_true, decide_eq_true_eq, List.all_eq_true] at w
+  exact w
+
+theorem tx_spec (T : Tables) (hT : C02.TablesOK T = true) (t : Tx) (h : WFTx T t = true) :
+    assembleTx t = some (rawTx T t) ∧ ∀ seg, t.toBytes T seg = .ok (encodeTx (rawTx T t) seg) := by
+  obtain ⟨hv, hl, hn1, hn, hm, hins, houts, hw⟩ := wfTx_elim T t h
+  have e1 := mapM_some assembleIn (rawIn T) t.inputs (fun i hi => (in_spec T hT i (hins i hi)).1)
+  have e2 := mapM_some assembleOut (rawOut T) t.outputs (fun o ho => (out_spec T hT o (houts o ho)).1)
+  have e3 := concatM_map (TxIn.toBytes T) (fun i => encIn (rawIn T i)) t.inputs
+    (fun i hi => (in_spec T hT i (hins i hi)).2.1)
+  have e4 := concatM_map (TxOut.toBytes T) (fun o => encOut (rawOut T o)) t.outputs
+    (fun o ho => (out_spec T hT o (houts o ho)).2.1)
+  have e5 : (fun w : List Bytes => compactSize w.length ++ witnessBytes w) = encStack := rfl
+  constructor
+  · simp [assembleTx, e1, e2, rawTx]
+  · intro seg
+    unfold Tx.toBytes
+    rw [e3, e4, e5]
+    simp only [bind, Except.bind, pure, Except.pure, encodeTx, rawTx, List.length_map, List.flatMap_map]
+
+end helpers
+
+/-- serialising yields exactly the consensus wire encoding (legacy, or BIP144 with marker, flag and one
+witness stack per input) -/
+theorem encode_eq_wire (T : Tables) (hT : C02.TablesOK T = true) (t : Tx) (h : WFTx T t = true) (seg : Bool) :
+    ∃ r, assembleTx t = some r ∧ t.toBytes T seg = .ok (encodeTx r seg) :=
+  ⟨rawTx T t, (tx_spec T hT t h).1, (tx_spec T hT t h).2 seg⟩
+
+/-- "field for field": what a correct parse of the encoding of `t` looks like -/
+def inRenders (a b : TxIn) : Bool :=
+  a.txid == b.txid && a.index == b.index && a.sequence == b.sequence &&
+  (if a.txid = zero32 then a.scriptSig == b.scriptSig else renders a.scriptSig b.scriptSig)
+
+def outRenders (a b : TxOut) : Bool := a.amount == b.amount && renders a.script b.script
+
+def all2 {α} (f : α → α → Bool) : List α → List α → Bool
+  | [], [] => true
+  | a :: as, b :: bs => f a b && all2 f as bs
+  | _, _ => false
+
+def txRenders (a b : Tx) : Bool :=
+  a.version == b.version && a.locktime == b.locktime && a.hasSegwit == b.hasSegwit &&
+  all2 inRenders a.inputs b.inputs && all2 outRenders a.outputs b.outputs &&
+  (if a.hasSegwit then a.witnesses == b.witnesses else b.witnesses == [])
+
+section helpers2
+open TxLemmas
 
 theorem inRenders_parsedIn (T : Tables) (hT : C02.TablesOK T = true) (i : TxIn) (h : WFIn T i = true) (seg : Bool) :
     inRenders i (parsedIn T seg i) = true := by
@@ -245,49 +303,96 @@ theorem all2_map {α : Type} (r : α → α → Bool) (f : α → α) (xs : List
   | cons x xs ih =>
     simp [all2, h x (by simp), ih (fun y hy => h y (by simp [hy]))]
 
-end helpers
+theorem parse_tx (T : Tables) (hT : C02.TablesOK T = true) (t : Tx) (h : WFTx T t = true) :
+    Tx.parse T (encodeTx (rawTx T t) t.hasSegwit) = .ok (parsedTx T t) := by
+  obtain ⟨hv, hl, hn1, hn, hm, hins, houts, hw⟩ := wfTx_elim T t h
+  have hI := fun seg rest => parseMany_map (TxIn.parse T seg) (fun i => encIn (rawIn T i)) (parsedIn T seg)
+    t.inputs (fun i hi r => parse_in T hT i (hins i hi) seg r) rest
+  have hO := fun seg rest => parseMany_map (TxOut.parse T seg) (fun o => encOut (rawOut T o)) (parsedOut T seg)
+    t.outputs (fun o ho r => parse_out T hT o (houts o ho) seg r) rest
+  unfold Tx.parse encodeTx
+  simp only [rawTx, parsedTx, List.length_map, List.flatMap_map, List.append_assoc]
+  cases hseg : t.hasSegwit
+  · simp only [Bool.false_eq_true, if_false, List.nil_append, List.drop_left' hv, List.take_left' hv,
+      compactSize_head_ne_zero _ hn1]
+    rw [parseCS_compactSize _ (by omega)]
+    simp only [bind, Except.bind]
+    rw [hI]
+    simp only []
+    rw [parseCS_compactSize _ (by omega)]
+    simp only []
+    rw [hO]
+    simp only [pure, Except.pure, List.take_of_length_le (Nat.le_of_eq hl)]
+  · obtain ⟨hwl, hws⟩ := hw hseg
+    have hW := parseMany_map parseStack encStack id t.witnesses
+      (fun st hst r => parseStack_encStack st (by have := (hws st hst).1; omega)
+        (fun it hit => by have := (hws st hst).2 it hit; omega) r) t.locktime
+    rw [hwl, List.map_id] at hW
+    have e01 : ([0, 1] : Bytes).length = 2 := rfl
+    simp only [if_true, List.drop_left' hv, List.take_left' hv, List.take_left' e01, List.drop_left' e01,
+      beq_self_eq_true]
+    rw [parseCS_compactSize _ (by omega)]
+    simp only [bind, Except.bind]
+    rw [hI]
+    simp only []
+    rw [parseCS_compactSize _ (by omega)]
+    simp only []
+    rw [hO]
+    simp only []
+    rw [hW]
+    simp only [pure, Except.pure, List.take_of_length_le (Nat.le_of_eq hl)]
 
-/-- serialising yields exactly the consensus wire encoding (legacy, or BIP144 with marker, flag and one
-witness stack per input) -/
-theorem encode_eq_wire (T : Tables) (hT : C02.TablesOK T = true) (t : Tx) (h : WFTx T t = true) (seg : Bool) :
-    ∃ r, assembleTx t = some r ∧ t.toBytes T seg = .ok (encodeTx r seg) := by
-  sorry
+theorem txRenders_parsedTx (T : Tables) (hT : C02.TablesOK T = true) (t : Tx) (h : WFTx T t = true) :
+    txRenders t (parsedTx T t) = true := by
+  obtain ⟨hv, hl, hn1, hn, hm, hins, houts, hw⟩ := wfTx_elim T t h
+  have a := all2_map inRenders (parsedIn T t.hasSegwit) t.inputs
+    (fun i hi => inRenders_parsedIn T hT i (hins i hi) _)
+  have b := all2_map outRenders (parsedOut T t.hasSegwit) t.outputs
+    (fun o ho => outRenders_parsedOut T hT o (houts o ho) _)
+  unfold txRenders
+  simp only [parsedTx, a, b, beq_self_eq_true, Bool.and_self, Bool.true_and]
+  cases t.hasSegwit <;> simp
 
-/-- "field for field": what a correct parse of the encoding of `t` looks like -/
-def inRenders (a b : TxIn) : Bool :=
-  a.txid == b.txid && a.index == b.index && a.sequence == b.sequence &&
-  (if a.txid = zero32 then a.scriptSig == b.scriptSig else renders a.scriptSig b.scriptSig)
+theorem toBytes_parsedTx (T : Tables) (hT : C02.TablesOK T = true) (t : Tx) (h : WFTx T t = true) :
+    (parsedTx T t).toBytes T (parsedTx T t).hasSegwit = .ok (encodeTx (rawTx T t) t.hasSegwit) := by
+  obtain ⟨hv, hl, hn1, hn, hm, hins, houts, hw⟩ := wfTx_elim T t h
+  have e3 := concatM_map (fun i => TxIn.toBytes T (parsedIn T t.hasSegwit i)) (fun i => encIn (rawIn T i)) t.inputs
+    (fun i hi => toBytes_parsedIn T hT i (hins i hi) _)
+  have e4 := concatM_map (fun o => TxOut.toBytes T (parsedOut T t.hasSegwit o)) (fun o => encOut (rawOut T o))
+    t.outputs (fun o ho => toBytes_parsedOut T hT o (houts o ho) _)
+  have e5 : (fun w : List Bytes => compactSize w.length ++ witnessBytes w) = encStack := rfl
+  unfold Tx.toBytes
+  simp only [parsedTx, List.map_map, Function.comp_def, e3, e4, e5, List.length_map]
+  simp only [bind, Except.bind, pure, Except.pure, encodeTx, rawTx, List.length_map, List.flatMap_map]
+  by_cases hs : t.hasSegwit = true <;> simp [hs]
 
-def outRenders (a b : TxOut) : Bool := a.amount == b.amount && renders a.script b.script
-
-def all2 {α} (f : α → α → Bool) : List α → List α → Bool
-  | [], [] => true
-  | a :: as, b :: bs => f a b && all2 f as bs
-  | _, _ => false
-
-def txRenders (a b : Tx) : Bool :=
-  a.version == b.version && a.locktime == b.locktime && a.hasSegwit == b.hasSegwit &&
-  all2 inRenders a.inputs b.inputs && all2 outRenders a.outputs b.outputs &&
-  (if a.hasSegwit then a.witnesses == b.witnesses else b.witnesses == [])
+end helpers2
 
 /-- parsing the encoding of any well-formed transaction (coinbase, legacy, segwit, mixed; empty witness
 stacks next to non-empty ones; any counts) returns its fields … -/
 theorem parse_encode (T : Tables) (hT : C02.TablesOK T = true) (t : Tx) (h : WFTx T t = true)
     (bs : Bytes) (hb : t.toBytes T t.hasSegwit = .ok bs) :
     ∃ t', Tx.parse T bs = .ok t' ∧ txRenders t t' = true := by
-  sorry
+  rw [(tx_spec T hT t h).2 t.hasSegwit] at hb
+  obtain rfl := Except.ok.inj hb
+  exact ⟨parsedTx T t, parse_tx T hT t h, txRenders_parsedTx T hT t h⟩
 
 /-- … and re-serialising the parsed transaction reproduces the original bytes -/
 theorem reencode (T : Tables) (hT : C02.TablesOK T = true) (t : Tx) (h : WFTx T t = true)
     (bs : Bytes) (hb : t.toBytes T t.hasSegwit = .ok bs) :
     ∃ t', Tx.parse T bs = .ok t' ∧ t'.toBytes T t'.hasSegwit = .ok bs := by
-  sorry
+  rw [(tx_spec T hT t h).2 t.hasSegwit] at hb
+  obtain rfl := Except.ok.inj hb
+  exact ⟨parsedTx T t, parse_tx T hT t h, toBytes_parsedTx T hT t h⟩
 
 /-- txid / wtxid are the byte-reversed double-SHA256 of the witness-stripped / full wire encoding -/
 theorem txid_wtxid (sha256 : Bytes → Bytes) (T : Tables) (hT : C02.TablesOK T = true) (t : Tx) (h : WFTx T t = true) :
     ∃ r, assembleTx t = some r ∧
       t.txid sha256 T = .ok (sha256 (sha256 (encodeTx r false))).reverse ∧
       t.wtxid sha256 T = .ok (sha256 (sha256 (encodeTx r t.hasSegwit))).reverse := by
-  sorry
+  obtain ⟨h1, h2⟩ := tx_spec T hT t h
+  refine ⟨rawTx T t, h1, ?_, ?_⟩
+  · simp only [Tx.txid, h2 false, bind, Except.bind, pure, Except.pure]
+  · simp only [Tx.wtxid, h2 t.hasSegwit, bind, Except.bind, pure, Except.pure]
 
 end C01
